@@ -184,6 +184,7 @@ def handle (s : St) (line : String) : St :=
     match s.rep? r.toNat!, s.rep? r2.toNat! with
     | some a, some b =>
       if res == "panic" then s.diff "join" "no-panic" "panic" |>.spec "C16" "joinNoPanic" false s!"join {r} {r2} {size}" else
+      if res == "hang" then (s.diff "join" "returns" "hang").spec "C06" "joinReturns" false s!"join {r} {r2} {size} did not return" else
       if r == r2 then (if res == "ok" then s else s.diff "join.self" "ok" res) else
       let sz := toInt! size
       match join a.log b.log.id b.log.entries b.log.heads sz
